@@ -25,13 +25,13 @@ def subCore (s : Sub) : Int × Int × StepState × Age × FinStep × String × H
 def Same (a b : Rollout) : Prop :=
   b.steps = a.steps ∧ b.hasTraffic = a.hasTraffic ∧ b.style = a.style ∧ b.paused = a.paused ∧
   b.rollbackInBatch = a.rollbackInBatch ∧ b.disableGen = a.disableGen ∧ b.grace = a.grace ∧ b.disabled = a.disabled ∧
-  b.deleting = a.deleting
+  b.deleting = a.deleting ∧ b.realPartition = a.realPartition
 
-theorem Same.rfl' (a : Rollout) : Same a a := ⟨rfl, rfl, rfl, rfl, rfl, rfl, rfl, rfl, rfl⟩
+theorem Same.rfl' (a : Rollout) : Same a a := ⟨rfl, rfl, rfl, rfl, rfl, rfl, rfl, rfl, rfl, rfl⟩
 theorem Same.trans {a b c : Rollout} (h1 : Same a b) (h2 : Same b c) : Same a c := by
-  obtain ⟨a1, a2, a3, a4, a5, a6, a7, a8, a9⟩ := h1
-  obtain ⟨b1, b2, b3, b4, b5, b6, b7, b8, b9⟩ := h2
-  exact ⟨b1.trans a1, b2.trans a2, b3.trans a3, b4.trans a4, b5.trans a5, b6.trans a6, b7.trans a7, b8.trans a8, b9.trans a9⟩
+  obtain ⟨a1, a2, a3, a4, a5, a6, a7, a8, a9, a10⟩ := h1
+  obtain ⟨b1, b2, b3, b4, b5, b6, b7, b8, b9, b10⟩ := h2
+  exact ⟨b1.trans a1, b2.trans a2, b3.trans a3, b4.trans a4, b5.trans a5, b6.trans a6, b7.trans a7, b8.trans a8, b9.trans a9, b10.trans a10⟩
 
 theorem csDisable_same (ro : Rollout) : Same ro (csDisable ro) ∧ (csDisable ro).sub = ro.sub := by
   unfold csDisable; split
@@ -584,9 +584,10 @@ theorem rollback_first (w : World) (r : StepResult) (h : reconcile w = .val r) :
         dsimp only
         rw [hos]
         dsimp only
-        have : wl.inRollback = true ∧ wl.canaryRev ≠ os.canaryRev ∧ ¬ (¬ ns.hasTraffic = true ∧ ns.rollbackInBatch = true) := by
+        have : wl.inRollback = true ∧ wl.canaryRev ≠ os.canaryRev ∧
+            ¬ (¬ ns.hasTraffic = true ∧ ns.realPartition = true ∧ ns.rollbackInBatch = true) := by
           refine ⟨hrb, hrev, ?_⟩
-          rw [hsame.2.1, hsame.2.2.2.2.1]
+          rw [hsame.2.1, hsame.2.2.2.2.1, hsame.2.2.2.2.2.2.2.2.2]
           exact hnb
         rw [if_pos this]
       rw [hbr] at h
@@ -2000,7 +2001,7 @@ theorem runCanary_unpin (c0 c' : Ctx) (err : Bool) (h : runCanary c0 = .ok c' er
       unfold fullStep at hfull
       rw [hstep'] at hfull
       simp only [Bool.and_eq_true, decide_eq_true_eq] at hfull
-      obtain ⟨⟨hstyle, htraffic⟩, hrepl⟩ := hfull
+      obtain ⟨⟨⟨hstyle, htraffic⟩, hrepl⟩, hreal⟩ := hfull
       have hpre : preStep step { syncStep c0 with sub := (syncStep c0).sub } = some ({ syncStep c0 with sub := (syncStep c0).sub }, true, false) := by
         unfold preStep; simp [htraffic]
       rw [hpre] at h
@@ -2010,7 +2011,7 @@ theorem runCanary_unpin (c0 c' : Ctx) (err : Bool) (h : runCanary c0 = .ok c' er
       dsimp only at h
       rw [y3, hinit] at h
       dsimp only at h
-      exact RV.Props.Cluster.initStep_full_unpins c0.ro step _ c' err (by simpa using hstyle) htraffic (by dsimp only; exact y4) hhas
+      exact RV.Props.Cluster.initStep_full_unpins c0.ro step _ c' err (by simpa using hstyle) hreal htraffic (by dsimp only; exact y4) hhas
         (by dsimp only; exact hseen1) (by dsimp only; rw [y3]; exact hinit) (by dsimp only; rw [y5]; exact hrepl) h hne
 
 theorem inRolling_unpin (w : World) (old ns : Rollout) (s os : Sub) (wl : WL) (r : StepResult) (s' : Sub)
@@ -2090,7 +2091,7 @@ theorem inRolling_unpin (w : World) (old ns : Rollout) (s os : Sub) (wl : WL) (r
                 rw [hc0]; exact hfull
 
 /-- **C04 (stable half, whole reconcile)** — for every world with a readable workload: when one reconcile moves a
-    rolling canary rollout out of `StepInit` of a step (with traffic) whose replicas cover the whole
+    rolling partition-style (`realPartition`) canary rollout out of `StepInit` of a step (with traffic) whose replicas cover the whole
     workload — i.e. hands the batch that replaces the last stable pod to the BatchRelease — the stable
     Service, if it exists, is un-pinned afterwards. -/
 theorem full_step_unpins_first (w : World) (r : StepResult) (h : reconcile w = .val r) :
@@ -2128,7 +2129,7 @@ theorem full_step_unpins_first (w : World) (r : StepResult) (h : reconcile w = .
       · cases h
         have hfull' : fullStep ns s wl = true := by
           unfold fullStep at hfull ⊢
-          rw [hsame.1, hsame.2.2.1, c1]; exact hfull
+          rw [hsame.1, hsame.2.2.1, hsame.2.2.2.2.2.2.2.2.2, c1]; exact hfull
         have := inRolling_unpin w w.ro ns s os wl r0 s' hos hs hir hs' (by rw [c3]; exact hinit) (by rw [c1]; exact hcur)
           hleft hfull' (by rw [hsame.2.1]; exact hhas)
         cases hse : r0.w.net.stableExists with
